@@ -349,12 +349,16 @@ def install_fs_models(h, I):
     I.hooks['fs'] = fs
     I.models['hashlib.md5'] = lambda I_, *a: Md5()
     I.models['datetime.datetime.now'] = lambda I_, *a, **k: NowStub()
+    I.models['datetime.datetime.fromisoformat'] = lambda I_, s_: NowStub()
     I.hooks.setdefault('nc_files', {})
 
     def dataset(I_, path, mode='r', **k):
         key = path._key() if hasattr(path, '_key') else str(path)
         files = I_.hooks['nc_files']
         if mode == 'w':
+            gos = I_.hooks.get('gos')
+            if gos is not None:
+                gos._tick(f'create-netcdf {key}')
             f = GhostFile(key, 0, lambda j: z3.IntVal(-1))
             ds = DatasetStub(f, fields=(), fs_names=())
             files[key] = ds
@@ -519,3 +523,99 @@ def make_store(h, I, mode, ncf, cache, next_index, indexable=None, index_group=N
                _file_creation_pending=pending, _next_index=next_index,
                _write_enabled=(mode in ('CREATE', 'APPEND')))
     return st
+
+
+# ---- ghost operating system (directories, renames, JSON files) --------------------------------------
+
+class GhostOS:
+    """os.mkdir / os.rename / open / json over concrete path names.  Every call is a *step*; a
+    fault injected at step `fault_at` makes that call raise OSError before having any effect
+    (DESIGN C10: each file-system call contributes a 'may raise OSError' path)."""
+
+    def __init__(self, I, fault_at=None):
+        self.I = I
+        self.dirs = {'.', '/', ''}
+        self.json = {}          # path -> data
+        self.step = 0
+        self.fault_at = fault_at
+        self.log = []
+
+    def _tick(self, what):
+        self.step += 1
+        self.log.append(what)
+        if self.fault_at is not None and self.step == self.fault_at:
+            self.I.raise_('OSError', f'injected failure at step {self.step}: {what}')
+
+    def exists(self, p):
+        return p in self.dirs or p in self.json or p in self.I.hooks['nc_files']
+
+    def is_dir(self, p):
+        return p in self.dirs
+
+    def is_file(self, p):
+        return p in self.json or p in self.I.hooks['nc_files']
+
+
+def _key(p):
+    return p._key() if hasattr(p, '_key') else (p if isinstance(p, str) else str(p))
+
+
+class JsonFile(Model):
+    def __init__(self, gos, path, mode):
+        self.gos, self.path, self.mode = gos, path, mode
+
+    def py_enter(self, I):
+        return self
+
+    def py_exit(self, I, exc):
+        return False
+
+
+def install_ghost_os(h, I, fault_at=None):
+    gos = GhostOS(I, fault_at)
+    I.hooks['gos'] = gos
+    I.hooks['path_oracle'] = lambda kind, p: getattr(gos, kind)(p)
+
+    def mkdir(I_, p, *a, **k):
+        gos._tick(f'mkdir {_key(p)}')
+        if gos.exists(_key(p)):
+            I_.raise_('FileExistsError', _key(p))
+        gos.dirs.add(_key(p))
+    I.models['os.mkdir'] = mkdir
+
+    def rename(I_, src, dst):
+        s, d = _key(src), _key(dst)
+        gos._tick(f'rename {s} -> {d}')
+        files = I_.hooks['nc_files']
+        if s in files:
+            files[d] = files.pop(s)
+            files[d].f.name = d
+        elif s in gos.json:
+            gos.json[d] = gos.json.pop(s)
+        else:
+            I_.raise_('FileNotFoundError', s)
+    I.models['os.rename'] = rename
+
+    def open_(I_, p, mode='r', **k):
+        key = _key(p)
+        if 'w' in mode:
+            gos._tick(f'open-for-write {key}')
+            gos.json[key] = None
+        elif key not in gos.json:
+            I_.raise_('FileNotFoundError', key)
+        return JsonFile(gos, key, mode)
+    I.models['builtins.open'] = open_
+
+    def dump(I_, data, fp, **k):
+        gos._tick(f'json.dump {fp.path}')
+        from pyvc.models import _deep
+        gos.json[fp.path] = _deep(I_, data)
+    I.models['json.dump'] = dump
+
+    def load(I_, fp):
+        d = gos.json.get(fp.path)
+        if d is None:
+            I_.raise_('ValueError', 'JSONDecodeError: empty or truncated file ' + fp.path)
+        return d
+    I.models['json.load'] = load
+    return gos
